@@ -213,6 +213,8 @@ def make_case(cid, n, base, queries, weakly=False):
         for x in atoms_of(b) | atoms_of(a):
             mx = max(mx, x + 1)
     sig = ATOM_NAMES[:mx]
+    assert len({k for (k, _, _) in base}) == len(list(base)), "harness bug: duplicate conditional keys in a generated base"
+    assert len({k for (k, _, _) in queries}) == len(list(queries)), "harness bug: duplicate query keys in a generated case"
     return {"id": cid, "n": mx, "sig": sig, "base": list(base), "queries": list(queries), "weakly": bool(weakly)}
 
 
